@@ -158,14 +158,14 @@ struct Manual {
 static std::mutex wd_mx;
 static std::condition_variable wd_cv;
 
-// runs fn on the calling thread; if it does not return within 2 s the observation `hang_code` is printed
+// runs fn on the calling thread; if it does not return within 1.5 s the observation `hang_code` is printed
 // and the process exits (the pipeline records the unterminated case)
 template <typename Fn>
 static void with_watchdog(long hang_code, Fn &&fn) {
     bool done = false;
     std::thread wd([&] {
         std::unique_lock lk(wd_mx);
-        if (!wd_cv.wait_for(lk, std::chrono::seconds(2), [&] { return done; })) {
+        if (!wd_cv.wait_for(lk, std::chrono::milliseconds(1500), [&] { return done; })) {
             std::printf("%ld\n", hang_code);
             std::fflush(stdout);
             _exit(78);
@@ -213,7 +213,7 @@ struct Interval {
             }
             case 3: {
                 long before = tick_status();
-                with_watchdog(-998, [&] { src.request_stop(); });
+                src.request_stop();
                 long after = tick_status();
                 if (after == 2) finished = true;
                 emit(after != before ? after : 0);
@@ -240,7 +240,7 @@ struct Interval {
     ~Interval() {
         // a generator still sleeping must be woken before it can be destroyed
         if (tick && !tick->ready()) {
-            src.request_stop();
+            with_watchdog(-998, [&] { src.request_stop(); });   // a self-deadlock here must not stall the whole run
             for (int i = 0; i < 4 && !tick->ready(); i++) {
                 scheduler::expired e = sch.get_expired(tp_t::max());
                 if (std::holds_alternative<scheduler::promise>(e)) std::get<scheduler::promise>(e)();
@@ -346,7 +346,9 @@ int main(int argc, char **argv) {
             for (auto &op : cs.ops) m.exec(op);
         } else if (cs.engine == "tiv") {
             Interval iv;
-            for (auto &op : cs.ops) iv.exec(op);
+            // every call runs under the watchdog: a stop callback that self-deadlocks may run inside request_stop(), inside
+            // the generator call (stop requested before the body starts: the callback runs in its constructor) or in ~Interval
+            for (auto &op : cs.ops) with_watchdog(-998, [&] { iv.exec(op); });
         } else if (cs.engine == "tst") {
             run_start(cs);
         } else if (cs.engine == "tth") {
